@@ -1,9 +1,13 @@
-"""Crash injection for the real save_json (C20 replay / bounded layer): the k-th write / flush / close /
-replace call raises; afterwards data.json must be byte-identical to the old or to the complete new file."""
+"""Crash injection for the real save_json (C20 replay / bounded layer).
+
+Every effect point of one save (opening for writing, each write, close, replace/rename) is hit once by a HARD KILL:
+the save runs in a fork()ed child that calls os._exit() at the chosen point - no `finally`, no `__exit__`, no flushing
+of Python's user-space buffers, exactly like SIGKILL / power loss of the process.  Two variants per point: buffers as
+they are, and buffers flushed just before the kill (the kernel may have received any prefix).  Afterwards data.json
+must be byte-identical to the old file or to the complete new file."""
 from __future__ import annotations
 
 import builtins
-import io
 import os
 import pathlib
 import shutil
@@ -11,34 +15,34 @@ import tempfile
 from argparse import Namespace
 
 
-class Crash(BaseException):
-    pass
-
-
 class _Budget:
-    def __init__(self, k):
+    def __init__(self, k, flush):
         self.left = k
         self.calls = 0
+        self.flush = flush
+        self.open_files = []
 
     def tick(self):
         self.calls += 1
         if self.left is not None:
             if self.left == 0:
-                raise Crash()
+                if self.flush:
+                    for f in self.open_files:
+                        try:
+                            f.flush()
+                        except Exception:
+                            pass
+                os._exit(17)            # hard kill
             self.left -= 1
 
 
 def _wrap_file(f, budget):
+    budget.open_files.append(f)
+
     class W:
         def write(self, s):
-            # a crash in the middle of a write leaves a prefix behind
-            if budget.left == 0:
-                f.write(s[: len(s) // 2])
-                f.flush()
             budget.tick()
-            r = f.write(s)
-            f.flush()
-            return r
+            return f.write(s)
 
         def flush(self):
             return f.flush()
@@ -51,12 +55,6 @@ def _wrap_file(f, budget):
             return self
 
         def __exit__(self, et, ev, tb):
-            if et is Crash:
-                try:
-                    f.close()
-                except Exception:
-                    pass
-                return False
             self.close()
             return False
 
@@ -65,117 +63,107 @@ def _wrap_file(f, budget):
     return W()
 
 
-def run_save(dirpath, earlier, rows, cols, crash_at):
-    """Run the real save_json in dirpath after `earlier` completed saves; crash at effect number crash_at
-    (None: no crash).  Returns (crashed, number_of_effect_points)."""
+def _output(save, i, rows, cols):
     import numpy as np
-    from pyvc.mode import native_pkg
-    save = native_pkg().mod("run.save")
-    path = pathlib.Path(dirpath) / "data.json"
-
-    def out(i):
-        d = np.arange((rows + 1) * cols, dtype=float).reshape(rows + 1, cols) * (i + 1) + 0.5
-        a = np.arange(rows * cols, dtype=float).reshape(rows, cols)
-        return save.Output(d, a, Namespace(func=len, seed=i))
-    for i in range(earlier):
-        save.save_json(path, f"old{i}", out(i))
-    budget = _Budget(crash_at)
-    orig_open, orig_replace, orig_rename, orig_preplace = pathlib.Path.open, os.replace, os.rename, pathlib.Path.replace
-    orig_builtin_open = builtins.open
-
-    def p_open(self, mode="r", *a, **k):
-        f = orig_open(self, mode, *a, **k)
-        if "w" in mode or "a" in mode or "+" in mode:
-            if budget.left == 0:
-                f.close()       # the truncation has already happened when the crash hits right after open
-            budget.tick()
-            return _wrap_file(f, budget)
-        return f
-
-    def b_open(file, mode="r", *a, **k):
-        f = orig_builtin_open(file, mode, *a, **k)
-        if ("w" in mode or "a" in mode or "+" in mode) and str(file).startswith(str(dirpath)):
-            if budget.left == 0:
-                f.close()
-            budget.tick()
-            return _wrap_file(f, budget)
-        return f
-
-    def o_replace(a, b, *x, **k):
-        budget.tick()
-        return orig_replace(a, b, *x, **k)
-
-    def o_rename(a, b, *x, **k):
-        budget.tick()
-        return orig_rename(a, b, *x, **k)
-
-    def pp_replace(self, target):
-        budget.tick()
-        return orig_preplace(self, target)
-
-    pathlib.Path.open, os.replace, os.rename, pathlib.Path.replace = p_open, o_replace, o_rename, pp_replace
-    builtins.open = b_open
-    crashed = False
-    try:
-        save.save_json(path, "new", out(99))
-    except Crash:
-        crashed = True
-    finally:
-        pathlib.Path.open, os.replace, os.rename, pathlib.Path.replace = orig_open, orig_replace, orig_rename, orig_preplace
-        builtins.open = orig_builtin_open
-    return crashed, budget.calls
-
-
-def crash_sweep(earlier, rows, cols):
-    """Every crash point of one save; returns a list of witnesses (crash point, state of the file)."""
-    bad = []
-    base = tempfile.mkdtemp(prefix="c20_")
-    try:
-        ref = os.path.join(base, "ref")
-        os.makedirs(ref)
-        _, points = run_save(ref, earlier, rows, cols, None)
-        new_bytes = open(os.path.join(ref, "data.json"), "rb").read()
-        old_dir = os.path.join(base, "old")
-        os.makedirs(old_dir)
-        if earlier:
-            import numpy as np
-            # produce the old file by the same earlier saves
-            from pyvc.mode import native_pkg
-            run_save(old_dir, earlier, rows, cols, 0) if False else None
-        for k in range(points + 1):
-            d = os.path.join(base, f"k{k}")
-            os.makedirs(d)
-            # old state: `earlier` completed saves (run_save redoes them without crash budget)
-            old_bytes = None
-            if earlier:
-                tmp = os.path.join(base, f"pre{k}")
-                os.makedirs(tmp)
-                _prepare(tmp, earlier, rows, cols)
-                shutil.copy(os.path.join(tmp, "data.json"), os.path.join(d, "data.json"))
-                old_bytes = open(os.path.join(d, "data.json"), "rb").read()
-                crashed, _ = run_save(d, 0, rows, cols, k)
-            else:
-                crashed, _ = run_save(d, 0, rows, cols, k)
-            f = os.path.join(d, "data.json")
-            now = open(f, "rb").read() if os.path.exists(f) else None
-            if now != old_bytes and now != _expected_new(old_bytes, new_bytes, earlier):
-                bad.append({"crash_point": k, "crashed": crashed, "file": "missing" if now is None else f"{len(now)} bytes",
-                            "old": None if old_bytes is None else len(old_bytes), "new": len(new_bytes)})
-    finally:
-        shutil.rmtree(base, ignore_errors=True)
-    return bad
+    d = np.arange((rows + 1) * cols, dtype=float).reshape(rows + 1, cols) * (i + 1) + 0.5
+    a = np.arange(rows * cols, dtype=float).reshape(rows, cols)
+    return save.Output(d, a, Namespace(func=len, seed=i))
 
 
 def _prepare(d, earlier, rows, cols):
-    import numpy as np
     from pyvc.mode import native_pkg
     save = native_pkg().mod("run.save")
     path = pathlib.Path(d) / "data.json"
     for i in range(earlier):
-        dd = np.arange((rows + 1) * cols, dtype=float).reshape(rows + 1, cols) * (i + 1) + 0.5
-        a = np.arange(rows * cols, dtype=float).reshape(rows, cols)
-        save.save_json(path, f"old{i}", save.Output(dd, a, Namespace(func=len, seed=i)))
+        save.save_json(path, f"old{i}", _output(save, i, rows, cols))
 
 
-def _expected_new(old_bytes, new_bytes, earlier):
-    return new_bytes
+def _save_with_kill(dirpath, rows, cols, crash_at, flush, count_file=None):
+    """In the CHILD: run the real save_json; os._exit(17) at effect number crash_at (None: never)."""
+    from pyvc.mode import native_pkg
+    save = native_pkg().mod("run.save")
+    path = pathlib.Path(dirpath) / "data.json"
+    budget = _Budget(crash_at, flush)
+    orig_open, orig_replace, orig_rename, orig_preplace, orig_prename = (pathlib.Path.open, os.replace, os.rename,
+                                                                       pathlib.Path.replace, pathlib.Path.rename)
+    orig_builtin_open = builtins.open
+
+    def p_open(self, mode="r", *a, **k):
+        if "w" in mode or "a" in mode or "+" in mode:
+            budget.tick()                       # a kill right before the file is opened
+            f = orig_open(self, mode, *a, **k)
+            budget.tick()                       # ... and right after (a truncation has already happened)
+            return _wrap_file(f, budget)
+        return orig_open(self, mode, *a, **k)
+
+    def b_open(file, mode="r", *a, **k):
+        if ("w" in mode or "a" in mode or "+" in mode) and str(file).startswith(str(dirpath)):
+            budget.tick()
+            f = orig_builtin_open(file, mode, *a, **k)
+            budget.tick()
+            return _wrap_file(f, budget)
+        return orig_builtin_open(file, mode, *a, **k)
+
+    def mk(orig):
+        def wrapped(*a, **k):
+            budget.tick()
+            r = orig(*a, **k)
+            budget.tick()
+            return r
+        return wrapped
+
+    pathlib.Path.open = p_open
+    builtins.open = b_open
+    os.replace, os.rename = mk(orig_replace), mk(orig_rename)
+    pathlib.Path.replace, pathlib.Path.rename = mk(orig_preplace), mk(orig_prename)
+    save.save_json(path, "new", _output(save, 99, rows, cols))
+    if count_file:
+        with orig_builtin_open(count_file, "w") as f:
+            f.write(str(budget.calls))
+
+
+def _child(fn):
+    pid = os.fork()
+    if pid == 0:
+        try:
+            fn()
+            os._exit(0)
+        except BaseException:
+            os._exit(3)
+    _, status = os.waitpid(pid, 0)
+    return os.waitstatus_to_exitcode(status)
+
+
+def crash_sweep(earlier, rows, cols):
+    """Every kill point of one save; returns a list of witnesses."""
+    bad = []
+    from pyvc.mode import native_pkg
+    native_pkg().mod("run.save")          # import in the parent, so that the fork()ed children do not pay for it
+    base = tempfile.mkdtemp(prefix="c20_")
+    try:
+        pre = os.path.join(base, "pre")
+        os.makedirs(pre)
+        _prepare(pre, earlier, rows, cols)
+        old_bytes = open(os.path.join(pre, "data.json"), "rb").read() if earlier else None
+        ref = os.path.join(base, "ref")
+        shutil.copytree(pre, ref)
+        cf = os.path.join(base, "count")
+        rc = _child(lambda: _save_with_kill(ref, rows, cols, None, False, cf))
+        if rc != 0:
+            return [{"what": "the uninterrupted save failed in the child", "rc": rc}]
+        points = int(open(cf).read())
+        new_bytes = open(os.path.join(ref, "data.json"), "rb").read()
+        for k in range(points):
+            for flush in (False, True):
+                d = os.path.join(base, f"k{k}{'f' if flush else ''}")
+                shutil.copytree(pre, d)
+                rc = _child(lambda: _save_with_kill(d, rows, cols, k, flush))
+                f = os.path.join(d, "data.json")
+                now = open(f, "rb").read() if os.path.exists(f) else None
+                if now != old_bytes and now != new_bytes:
+                    bad.append({"kill_point": k, "flushed_before_kill": flush, "child_exit": rc,
+                                "file": "missing" if now is None else f"{len(now)} bytes",
+                                "old": None if old_bytes is None else len(old_bytes), "new": len(new_bytes)})
+    finally:
+        shutil.rmtree(base, ignore_errors=True)
+    return bad
